@@ -102,7 +102,7 @@ type argStats struct {
 	specEx                                                                        []string
 }
 
-func (c *Ctx) checkArgMaps(sdl string) {
+func (c *Ctx) checkArgMaps(sdl string, report bool) {
 	st := &argStats{panicEx: map[string]string{}}
 	var docs []string
 	for _, d := range argDocs {
@@ -213,5 +213,17 @@ func (c *Ctx) checkArgMaps(sdl string) {
 	fmt.Printf("direct C15 check (argSpec vs Go, coerced variables only): %d sites, %d differ\n", st.specChecked, st.specDiff)
 	for _, e := range st.specEx {
 		fmt.Println("  ", e[:min(700, len(e))])
+	}
+	c.Ev.Evals += st.sites
+	if !report {
+		return
+	}
+	for _, k := range keys {
+		c.Report("spec", "argmap-panic:literal-out-of-range(R15)", fmt.Sprintf("ArgumentMap panics (%s) on a validated document: %s", k, st.panicEx[k]),
+			map[string]any{"op": "argmap", "schema": sdl, "document": st.panicEx[k], "panic": k})
+	}
+	for _, e := range st.specEx {
+		c.Report("spec", "argmap-precedence:default-of-another-operation-linked", "argument map differs from argSpec: "+e[:min(900, len(e))],
+			map[string]any{"op": "argmap", "schema": sdl, "example": e})
 	}
 }
